@@ -67,7 +67,7 @@ func zzPreState(rg int32) (ue *chf_context.ChfUe, reserved int64) {
 //
 //	balance + reservation = (balance + reservation before) - cost x online usage reported.
 //
-//gosx:property=C01 tier=quick shards=5 unwind=40 p.containers=1 p.containers.thorough=2 timeout=30000
+//gosx:property=C01 tier=quick shards=5 unwind=40 p.containers=2 timeout=30000
 func ZZ_C01_Step() {
 	zzSetup()
 	rg := vx.Int32("rg")
